@@ -702,13 +702,16 @@ def count_shared(arrays):
     bounds = []
     for a in arrays:
         a = np.asarray(a)
-        bounds.append(array_utils.byte_bounds(a) if a.size else None)
+        if a.size:
+            bounds.append(array_utils.byte_bounds(a))
+    bounds.sort()
     n = 0
     for i in range(len(bounds)):
-        for j in range(i + 1, len(bounds)):
-            bi, bj = bounds[i], bounds[j]
-            if bi is not None and bj is not None and bi[0] < bj[1] and bj[0] < bi[1]:
-                n += 1
+        end = bounds[i][1]
+        j = i + 1
+        while j < len(bounds) and bounds[j][0] < end:
+            n += 1
+            j += 1
     return n
 
 
